@@ -65,7 +65,7 @@ Theorem C24_compact_covers : forall p k, wf_bytes p = true -> wf_bytes k = true 
 Proof. exact inc_prefix_covers. Qed.
 (* also through any nesting of tables / wrappers: the range reaching the base covers the full prefix *)
 Theorem C24_compact_covers_nested : forall s, prefixes_wf s ->
-  compact_covers (bpre s) (fst (st_compact s None None)) (snd (st_compact s None None)) = true.
+  covers_opt (bpre s) (st_compact s None None) = true.
 Proof. exact st_compact_whole. Qed.
 Theorem C24_compact_covers_meaning : forall P lo hi k, wf_bytes P = true -> wf_bytes k = true ->
   compact_covers P lo hi = true -> has_prefix P k = true ->
@@ -92,7 +92,7 @@ Example C24_ex_inc : inc_prefix [0; 255] = IncSome [1; 0] /\ inc_prefix [255; 25
   inc_prefix [] = IncNil /\ inc_prefix [97; 0] = IncSome [97; 1] /\ prefix_succ [0; 255] = Some [1].
 Proof. repeat split; vm_compute; reflexivity. Qed.
 Example C24_ex_compact :
-  st_compact (Tab [255] (Tab [97] (Eng ELdb []))) None None = (Some [97; 255], Some [98]).
+  st_compact (Tab [255] (Tab [97] (Eng ELdb []))) None None = Some (Some [97; 255], Some [98]).
 Proof. vm_compute. reflexivity. Qed.
 
 Print Assumptions C24_no_prefix_prefixed.
